@@ -21,19 +21,30 @@ _READER_NOTE = ("Trusted: Coq kernel + vm_compute; the hand-written byte-level r
                 "bytes, not modelled. ")
 
 claim("C01",
-      "Proof + correspondence. read_correct (Props/C01_read.v, closed under the global context): for every well-formed "
+      "Proof + correspondence. REFINEMENT TO A SPEC (Props/C01_spec.v, closed): Model/Spec.v is a short textbook meaning "
+      "of a file syntax (active object list updated by path, most recent index per path, chunks decoded by type; no "
+      "mechanism of the implementation) and reader_refines_spec proves: wf_file segs -> spec_ok segs (three syntactic "
+      "conditions: no path listed twice in a block, canonical paths, data only under channel paths) -> spec_meaning segs "
+      "= SOk c -> rd_all (ser_file segs) = Ok (spec_tokens c, true), zero-length channels included; "
+      "reader_rejects_forbidden: the three forbidden encodings give Err. The spec is itself exercised on every run "
+      "against the Python reference rules on the generated syntax (spec tie). The reader's integer decision logic "
+      "(_calculate_chunks, _compute_final_chunk_lengths, _get_chunk_size, _number_of_segment_values, lead-in arithmetic, "
+      "DAQmx buffer dimensions, the type table) is TRANSLATED from the source on every run (Gen/PyFuncsReader.v, "
+      "Gen/TypeTable.v) and proved equal to the hand model (Props/C01_gen.v), so the theorems speak about what the "
+      "source says now. read_correct (Props/C01_read.v, closed under the global context): for every well-formed "
       "file syntax whose raw data blocks are the contiguous/interleaved encodings of given chunk values, the byte-level "
       "reader model applied to the serialised bytes returns exactly the expected observation: every object once, "
       "hierarchy in order of first appearance, each channel's values the file-order concatenation over every chunk of "
       "every segment, canonical bit-exact values with the encoded type, lengths equal to the number of values, last "
       "property values. Built from proved layers (Props/C01.v, C01_file.v): codecs in both byte orders, lexer inverts "
       "serialiser, rd_metadata on bytes = state machine on syntax, decoders invert encoders for all sized types / "
-      "strings / contiguous chunks / interleaved rows. Outside the theorem: DAQmx (C11), truncation (C06), success of the "
-      "metadata pass (C02). The model is validated against TdmsFile.read on every run over random well-formed files "
+      "strings / contiguous chunks / interleaved rows. DAQmx segments: read_correct_daqmx (Props/C11_read.v); truncation: "
+      "truncation_values_prefix (Props/C06_values.v). The model is validated against TdmsFile.read on every run over random well-formed files "
       "(all 17 types x layouts x chunkings x byte orders x inheritance encodings) and single-fault malformed files, and "
       "the implementation is compared with an independent reference meaning.",
       _READER_NOTE + "UTF-8 decoding and NumPy byte reinterpretation are observed, not modelled.",
-      "Coq proof of the end-to-end reader theorem on the byte-level model + in-Coq model vs implementation "
+      "Coq proof of refinement of the byte-level reader model to an abstract spec (and of the end-to-end reader theorem) "
+      "+ source-to-Gallina translation of the integer logic with equivalence proofs + in-Coq model vs implementation "
       "correspondence + independent-encoder oracle",
       "DESIGN.md section 7 C01, 13.3")
 claim("C02",
@@ -58,21 +69,32 @@ claim("C02",
       "exhaustive small-bound enumeration against implementation and model",
       "DESIGN.md section 7 C02, 13.3")
 claim("C03",
-      "Proof (partial) + differential run: model-level agreement of access paths is a corollary of the lazy-read theorems "
-      "(Props/C04.v) and of the receiver concatenation lemma (Props/C03.v); every access path of the public API in every "
+      "Proof + differential run: lazy_is_window_of_eager (Props/C03_read.v, closed): on the serialised bytes of every file "
+      "satisfying read_correct's hypotheses in which no segment's object list names a path twice (necessary: "
+      "lazy_eq_eager_refuted, recorded as known finding dup-path-in-segment), every lazy window read (lz_read_bytes: "
+      "metadata pass with segment indexes + chunk decoders + the line-by-line model of read_raw_data_for_channel) is the "
+      "window of the EAGER data of read_correct; lazy_full_eq_eager, lazy_slice_correct (the translated _read_slice), "
+      "lazy_index_correct, lazy_rejects_negative. Chunk streams: C05 generators_complete. memmap_dir, {path, stream} and "
+      "raw_timestamps configurations are covered by the differential run only: every access path of the public API in every "
       "configuration {read, open} x {path, stream} x {memmap} x {raw_timestamps} is compared with the eager baseline on "
       "generated files (scaled, truncated, DAQmx), chunk offsets checked as running counts; the baseline is compared with "
       "the Coq reader model.",
       _READER_NOTE + "memmap_dir is a storage choice the value model cannot exhibit (differential run only).",
-      "Coq corollaries of the lazy-read theorems + cross-path differential testing against the eager baseline and the model",
+      "Coq proof that every lazy window on bytes is the window of the eager data + cross-path differential testing against the eager baseline and the model",
       "DESIGN.md section 7, C03")
 claim("C06",
-      "Proof (partial) + exhaustive cutting: lemmas for the prefix argument (reads ending before the cut are unchanged; "
-      "final-chunk length arithmetic gives counts <= complete counts; Props/C06.v); every cut offset 4..len of every "
+      "Proof + exhaustive cutting: truncation_values_prefix (Props/C06_values.v, closed): for every file satisfying "
+      "read_correct's hypotheses and EVERY cut offset >= 4, rd_all on the cut bytes succeeds, every channel's values are "
+      "a prefix of the complete file's and contain every value of the segments wholly before the cut, len(channel) = "
+      "number of values, the hierarchy is that of the segments whose metadata lies before the cut, and the incomplete "
+      "flag is set exactly when the cut lies inside a segment's raw data; layers: cut_calculate_chunks_ok, "
+      "cut_segment_decodes (contiguous incl. strings, interleaved), cut_metadata_succeeds; truncation arithmetic also "
+      "proved on the TRANSLATED functions (Props/C06_gen.v); Props/C06.v: cut_file_segments. Lazy = eager on the cut "
+      "file and the length-unknown marker are checked on the implementation: every cut offset 4..len of every "
       "generated file is read eagerly and lazily and checked for prefix-ness, retention of earlier segments, len == values "
       "returned, lazy == eager and the incomplete flag; the Coq reader model (including file_status) is evaluated on the cuts.",
       _READER_NOTE + "The 'exactly when' clause for the incomplete flag is read for explicitly declared lengths.",
-      "Coq lemmas on truncation arithmetic + every-cut-offset enumeration against oracle and model",
+      "Coq proof of the value-prefix theorem for every cut offset on the byte-level reader model + every-cut-offset enumeration against oracle and model",
       "DESIGN.md section 7, C06")
 claim("C09",
       "Proof (partial) + correspondence with files on disk: the index stream advances by lead-in + metadata length per "
@@ -84,13 +106,19 @@ claim("C09",
       "Coq lemmas on index positions + on-disk differential run + model reading metadata from the index bytes",
       "DESIGN.md section 7, C09")
 claim("C11",
-      "Proof (partial) + direct-addressing oracle: the row matrix of a DAQmx buffer is strided direct addressing "
-      "(Props/C11.v); generated DAQmx layouts (1-3 buffers of differing widths/lengths, 1-4 channels, 1-3 scalers, digital "
+      "Proof + direct-addressing oracle: read_correct_daqmx (Props/C11_read.v, closed): for a serialised file whose "
+      "segments are ordinary encoded segments or consistent DAQmx segments of whole chunks, rd_all returns, per scaler id "
+      "of every DAQmx channel, the file-order concatenation of the values DIRECTLY ADDRESSED in the raw bytes "
+      "(direct_chunks: chunk base + buffer base + i*width + offset, declared type, segment byte order; digital lines: the "
+      "addressed bit), with buffer dimensions COMPUTED (buffer_dims_consistent: = largest number_values per buffer x "
+      "declared width; mismatching widths raise) rather than assumed; DAQmx arithmetic also on the translated functions "
+      "(Props/C11_gen.v); Props/C11.v: strided rows, truncated buffers give complete rows. Lazy windows of DAQmx channels "
+      "and truncated DAQmx files are checked on the implementation: generated DAQmx layouts (1-3 buffers of differing widths/lengths, 1-4 channels, 1-3 scalers, digital "
       "lines, typed and raw channels, multi-segment, both byte orders, random bytes) are decoded by the implementation and "
       "compared with the bytes at chunk_base + buffer_base + i*width + offset; lazy windows/chunks equal eager slices; "
       "truncated final chunks give complete rows only; the Coq DAQmx decoder is evaluated on the same bytes.",
       _READER_NOTE,
-      "Coq lemma (strided rows) + direct-addressing oracle + in-Coq DAQmx decoder correspondence",
+      "Coq proof of the whole-file DAQmx read theorem against a decoder-independent direct-addressing meaning + direct-addressing oracle + in-Coq DAQmx decoder correspondence",
       "DESIGN.md section 7, C11")
 claim("C15",
       "Proof + correspondence: every field and value written in either byte order decodes to the same thing "
@@ -243,8 +271,10 @@ claim("C14",
       "dtype-string-advancedapi, dtype-string-unscaled ...). dtype_agrees excludes timedelta64 results: "
       "datetime64 - datetime64 under a Subtract scale is the recorded finding dtype-nonnumeric-arith-scale; other "
       "arithmetic on non-numeric data is outside the model (counted: 83 files). Equality is modulo byte order "
-      "(and field order of the timestamp struct). 'len(full read) == len(channel)' is checked on the "
-      "implementation only (reader accounting is C01/C06). The tables are those of this NumPy (2.x, NEP 50).",
+      "(and field order of the timestamp struct). 'len(full read) == len(channel)': full_read_length "
+      "(Props/C14_read.v, closed) proves it on the byte-level reader models - the eager data and the lazy full read of "
+      "every channel of a serialised file under read_correct's hypotheses have exactly ch_len values - and the check "
+      "tests it on the implementation for every read. The tables are those of this NumPy (2.x, NEP 50).",
       "Coq proof (finite case analysis on reflected tables x induction on the graph) + exhaustive "
       "model/implementation correspondence + direct oracle on every read operation",
       "DESIGN.md section 7, C14; section 9, D8, D9")
@@ -408,10 +438,13 @@ claim("C07",
       "(data and index bytes; refused calls must be refused by the model) and the direct oracle -- TdmsFile.read of "
       "the written bytes returns per channel the concatenation of what was written (dtype, bit-identical values), per "
       "object the last value of every property with its TDMS type (seen by an independent parser of the bytes), "
-      "names and order preserved (quick 400 call sequences, thorough 12 000).",
-      "PARTIAL: the full write_read theorem (rd_all of the written bytes = content_of_calls) needs the composition "
-      "with the reader model (C01), stated in Props/C07.v as a comment; proved is the writer half against the "
-      "independent strict parser. NumPy's array -> bytes and the TimeStamp second-fraction arithmetic are supplied to "
+      "names and order preserved (quick 400 call sequences, thorough 12 000). COMPOSED (Props/C07_read.v, closed): "
+      "write_read -- wf_file sessions -> sizes_below_marker -> dtypes_consistent -> wr_file sessions = Ok (data, index) "
+      "-> rd_all data = Ok (content_tokens_of_calls sessions, true), with content_tokens_of_calls computed from the call "
+      "list ALONE (first-appearance order, last property value wins, values concatenated over all calls of all "
+      "sessions, first non-Void type); dtypes_consistent is NECESSARY (write_read_needs_one_dtype; recorded as known "
+      "finding channel-dtype-change: the writer accepts a channel changing type, the reader then refuses the file).",
+      "NumPy's array -> bytes and the TimeStamp second-fraction arithmetic are supplied to "
       "the model by the harness (fractions are only checked to be within one microsecond; datetimes generated are "
       "whole milliseconds; every microsecond is C12's). Strings in Python lists must not end in NUL (NumPy drops "
       "trailing NULs before the writer sees them). Trusted: Coq kernel + vm_compute, the translator "
@@ -420,9 +453,9 @@ claim("C07",
       "non-native byte order arrays are written byte-swapped (key d11-nonnative-byteorder, dev/patches/D11.patch) and "
       "a list mixing int and float whose first element is an int is truncated to integers (key "
       "d12-mixed-int-float-list, dev/patches/D12.patch); both reappear with a replay if unfixed.",
-      "Coq proof (lia case analysis on the translated functions; serialiser/parser inversion by induction with "
-      "Proofs/TokensRoundtrip.v; sort = three-way partition) + translator + in-Coq byte-exact correspondence + "
-      "read-back oracle",
+      "Coq proof of the composed writer->reader theorem on the two models (writer bytes = ser_file of a well-formed "
+      "syntax; state machine on writer output; read_correct) + lia case analysis on the translated functions + "
+      "translator + in-Coq byte-exact correspondence + read-back oracle",
       "DESIGN.md section 7, C07; sections 3a, 4, 8, 9 (D5, D6)")
 claim("C08",
       "Theorems (Props/C08.v, closed under the global context): writer_structurally_valid -- for every well-formed "
@@ -467,15 +500,20 @@ claim("C10",
       "same on the destination -- groups/channels order, properties, lengths, bit-identical raw values "
       "(read_data(scaled=False)), data type when len >= 1, scaled data (nan-safe); correspondence: the destination "
       "(and index) bytes equal the model's bytes for the content read from the source, evaluated inside Coq (quick "
-      "300 files, thorough 6 000).",
-      "PARTIAL: the full statement composes the reader model on both sides (rd_all_raw src = c -> rd_all_raw dest "
-      "agrees with c) and needs 'the writer accepts every content the reader produces'; proved is the writer half "
-      "against the strict parser with wf_file as hypothesis; the reader's view of the source is taken as the content "
-      "(C01-C03). Property TDMS types are not compared (the reader API does not expose them; defragment re-types ints "
+      "300 files, thorough 6 000). COMPOSED with the reader model (Props/C10_read.v, closed): defrag_read -- the "
+      "destination bytes READ BACK (rd_all) as defrag_tokens v c: the source's group and channel order, properties, "
+      "values byte for byte, lengths, and dtype via defrag_type (preserved when the channel has a value); "
+      "defrag_preserves_read_partial -- for a source ser_file segs under read_correct's hypotheses with c := the "
+      "content read from it, both reads are given explicitly.",
+      "PARTIAL: the final equality of the two token lists (up to version and the dtype of empty channels) needs three "
+      "facts about the source's reader state not yet proved (property dictionaries well-keyed, an untyped channel has "
+      "length 0, a group's name equals its dictionary key); it is checked by the reader-vs-reader oracle on every run "
+      "and evaluated in Coq on an example (c10_pipeline_example). wf_file of the calls (lengths fit their fields) is a "
+      "hypothesis. Property TDMS types are not compared (the reader API does not expose them; defragment re-types ints "
       "by magnitude, floats as double). Model = code with fixes D2 (tdms.py: read_data() of an untyped channel after "
       "an eager read), D7 (dev/patches/D7.patch: empty data whose type cannot be determined is written as an object "
       "without raw data; was TypeError None * int). Keys d7-defragment-raises-TypeError / "
       "d2-defragment-raises-RuntimeError reappear with a replay if a fix is reverted.",
-      "Coq proof (one segment per object: the writer inserts nothing when root and group are written first) on top "
-      "of the C07/C08 theorems + in-Coq byte-exact correspondence + reader-vs-reader oracle",
+      "Coq proof (one segment per object: the writer inserts nothing when root and group are written first) composed "
+      "with the writer->reader theorem of C07 + in-Coq byte-exact correspondence + reader-vs-reader oracle",
       "DESIGN.md section 7, C10; section 9 (D2, D7)")
